@@ -28,3 +28,7 @@ def coq_expr(s, r):
 
 def nontrivial(s, r):
     return bprop.nontrivial(PID, s, r)
+
+
+def deepen(s, rng):
+    return bprop.deepen(PID, s, rng)
